@@ -12,9 +12,7 @@ result, taken back through the returned rotation, must coincide modulo the origi
 original atom carrying the same type / tag / vector property; every original atom must be represented
 |det| times; no two result atoms may coincide modulo the result lattice.
 """
-import functools
 import itertools
-import math
 
 import numpy as np
 from hypothesis import strategies as st
@@ -25,7 +23,7 @@ from ..oracles import crystal_match as cm
 
 RULE = ("unit cells of all seven crystal families (lattice parameters 2-22 A, optionally rigidly rotated, left-handed, "
         "box origin zero / inside the first cell / many cells away), 1-5 atoms of 1-3 types with an int tag and a float "
-        "vector property, relative coordinates from {0,1/4,1/3,1/2,2/3,3/4} mixed with 4-digit reals (and, in a "
+        "vector property, relative coordinates from {0,1/4,1/3,1/2,2/3,3/4} mixed with 5-digit reals (and, in a "
         "sub-class, values a few tolerance units from a face), pairwise distinct modulo the lattice.  supersize: "
         "per-axis multipliers as +int, -int, numpy int or (m,n) tuples, product <= 60.  rotate: integer matrices with "
         "entries in [-3,3] (20 %: [-4,4]), det != 0, |det| <= 24, both signs, given as list / int array / float array, "
@@ -880,18 +878,18 @@ def oracle_centering(case):
 
 
 CLAUSES = [
-    Clause('supersize', oracle_supersize, supersize_cases, quick=6000, thorough=120000,
+    Clause('supersize', oracle_supersize, supersize_cases, quick=8000, thorough=120000,
            min_share={'nt': 0.3, 'onface': 0.3, 'two_sided': 0.12, 'arg_np': 0.08, 'mults_distinct': 0.15, 'origin_small': 0.12,
                       'multitype': 0.3},
            desc='supersize: count, box, origin, volume; every replica maps back onto one original atom with its type/tag/vector, each original N times, no coincidences'),
-    Clause('rotate', oracle_rotate, rotate_cases, quick=12000, thorough=300000,
+    Clause('rotate', oracle_rotate, rotate_cases, quick=24000, thorough=300000,
            min_share={'nt': 0.4, 'onface': 0.3, 'detneg': 0.2, 'hex4': 0.05, 'bigdet': 0.2, 'nearface': 0.05,
                       'origin_small': 0.12, 'lefthanded': 0.03, 'rigid_rot': 0.08, 'multitype': 0.3, 'form_float': 0.06},
            desc='rotate: proper rotation returned, box = T.(uvws.vects), LAMMPS form, atoms inside, count/volume x|det|, map-back through T with multiplicity |det|'),
-    Clause('refusal', oracle_refusal, refusal_cases, quick=2000, thorough=30000,
+    Clause('refusal', oracle_refusal, refusal_cases, quick=3000, thorough=30000,
            min_share={'nt': 0.9, 'coplanar': 0.08, 'nonint': 0.09, 'parallel': 0.05, 'shape': 0.05},
            desc='coplanar / parallel / non-integer / wrong-shape vector sets raise the documented ValueError and leave the system untouched'),
-    Clause('centering', oracle_centering, centering_cases, quick=5000, thorough=100000,
+    Clause('centering', oracle_centering, centering_cases, quick=8000, thorough=100000,
            min_share={'nt': 0.45, 'c2p2c': 0.3, 'p2c2p': 0.15, 'setting_t1': 0.07, 'setting_t2': 0.07, 'setting_f': 0.08,
                       'nobasis': 0.12, 'multitype': 0.3},
            max_share={'refusal': 0.05},
